@@ -79,7 +79,9 @@ class ConcCx:
 
 
 def main():
-    sys.path.insert(0, "/verif")
+    import os
+
+    sys.path.insert(0, os.path.dirname(os.path.dirname(os.path.abspath(__file__))))
     from symx import loader
 
     loader.load_concrete()
